@@ -96,6 +96,8 @@ type Tracker struct {
 	NAllocs, NFrees                                  int64
 	NChecks                                          int64
 	NGivenUp, NConfirms                              int64 // blocks whose affinity was given up; affinities written as confirmed
+
+	confirmedBy map[string]string // "type:host@cidr" -> kind of the logical op that wrote the confirmation
 }
 
 // NewTracker installs a tracker as the store's OnCommit hook.
@@ -304,9 +306,27 @@ func describeOp(op *OpRec) string {
 }
 
 // checkAffinityInvariants evaluates the C22 state invariants for one block CIDR on the store as it
-// is right after the write.
+// is right after the write.  Violation keys carry the kind of logical operation that wrote the
+// confirmation which disagrees with the block ("confirmed-by-<Kind>"), so that distinct causes
+// get distinct identities.
 func (t *Tracker) checkAffinityInvariants(wr *casstore.Write, cidr string, op *OpRec) {
 	t.NChecks++
+	// remember who confirmed what
+	if ak, ok := wr.Key.(model.BlockAffinityKey); ok {
+		if t.confirmedBy == nil {
+			t.confirmedBy = map[string]string{}
+		}
+		id := ak.AffinityType + ":" + ak.Host + "@" + ak.CIDR.String()
+		if aff, ok := wr.New().(*model.BlockAffinity); ok && aff.State == model.StateConfirmed {
+			kind := "?"
+			if op != nil {
+				kind = op.Step.Kind
+			}
+			t.confirmedBy[id] = kind
+		} else {
+			delete(t.confirmedBy, id)
+		}
+	}
 	var confirmed []string
 	for _, kv := range wr.View.Affinities() {
 		ak := kv.Key.(model.BlockAffinityKey)
@@ -321,25 +341,39 @@ func (t *Tracker) checkAffinityInvariants(wr *casstore.Write, cidr string, op *O
 			confirmed = append(confirmed, ak.AffinityType+":"+ak.Host)
 		}
 	}
-	if len(confirmed) > 1 {
-		t.find("two-confirmed-affinities", wr, op, "block %s has %d confirmed affinities after rev %d: %v", cidr, len(confirmed), wr.Rev, confirmed)
-	}
 	if len(confirmed) == 0 {
 		return
 	}
+	var block *model.AllocationBlock
 	for _, kv := range wr.View.Blocks() {
-		if kv.Key.(model.BlockKey).CIDR.String() != cidr {
-			continue
+		if kv.Key.(model.BlockKey).CIDR.String() == cidr {
+			block = kv.Value.(*model.AllocationBlock)
 		}
-		b := kv.Value.(*model.AllocationBlock)
-		if b.Affinity == nil {
-			continue
+	}
+	// the confirmation that does not belong to the block's recorded owner
+	stale := ""
+	for _, c := range confirmed {
+		if block == nil || block.Affinity == nil || c != *block.Affinity {
+			stale = c
+			break
 		}
-		for _, c := range confirmed {
-			if c != *b.Affinity {
-				t.find("block-affinity-mismatch", wr, op,
-					"after rev %d block %s records affinity %q but %q holds a confirmed affinity for it", wr.Rev, cidr, *b.Affinity, c)
-			}
+	}
+	by := "confirmed-by-" + t.confirmedBy[stale+"@"+cidr]
+	if len(confirmed) > 1 {
+		t.find("two-confirmed-affinities:"+by, wr, op, "block %s has %d confirmed affinities after rev %d: %v (the one of %s was written by a %s)",
+			cidr, len(confirmed), wr.Rev, confirmed, stale, t.confirmedBy[stale+"@"+cidr])
+	}
+	if block == nil {
+		return
+	}
+	for _, c := range confirmed {
+		switch {
+		case block.Affinity == nil:
+			t.find("block-without-affinity-has-confirmed-claim:"+by, wr, op,
+				"after rev %d block %s records no affinity but %q holds a confirmed affinity for it (written by a %s)", wr.Rev, cidr, c, t.confirmedBy[c+"@"+cidr])
+		case c != *block.Affinity:
+			t.find("block-affinity-mismatch:"+by, wr, op,
+				"after rev %d block %s records affinity %q but %q holds a confirmed affinity for it (written by a %s)", wr.Rev, cidr, *block.Affinity, c, t.confirmedBy[c+"@"+cidr])
 		}
 	}
 }
